@@ -20,6 +20,7 @@ import (
 
 	"github.com/nextdns/nextdns/discovery"
 	"github.com/nextdns/nextdns/proxy"
+	"github.com/nextdns/nextdns/resolver/endpoint"
 	"github.com/nextdns/nextdns/resolver"
 	"github.com/nextdns/nextdns/resolver/query"
 )
@@ -512,7 +513,27 @@ func replyC05(r *rng, n int, base int, timeout time.Duration) error {
 				upPre: pre, upFill: fill, upSeed: i & 0xff, adv: m})
 		}
 	}
-	return parallelWorlds(8, base, 16, timeout, cases)
+	if err := parallelWorlds(8, base, 16, timeout, cases); err != nil {
+		return err
+	}
+	// the same lattice with the real plain-DNS resolver between the proxy and the upstream (what a UDP upstream
+	// can send: at most 65507 bytes): the limit the client gets must not depend on the transport to the upstream
+	w, stop, err := newWorldReal(base+40, 16, timeout, nil)
+	if err != nil {
+		return err
+	}
+	defer stop()
+	for _, c := range cases {
+		if len(c.upPre)+c.upFill > 65507 {
+			continue
+		}
+		if atomic.LoadInt32(&noReplyCount) >= 8 {
+			break
+		}
+		c.id += "/dns53"
+		runSeq(w, c, timeout)
+	}
+	return nil
 }
 
 // genResponse: an upstream message for query bytes q (echoing id and, when the
@@ -916,8 +937,132 @@ func replyTCPStorm(r *rng, n int, base int) error {
 
 // ---- mode storm (C04): a storm of requests ending in every listed way against a proxy of
 // small capacity K, then K+2 slow queries: how many are inside the resolver together?
+// stormReal: a storm against the proxy in front of the REAL resolver stack (endpoint manager with a low error
+// threshold, a short test interval and a slow endpoint test): the upstream is silent, so queries fail while a test of
+// the endpoint is running, and the error threshold is reached during that test.  Afterwards the upstream answers
+// again and the rendezvous of K+2 slow queries must find all K units of capacity.
+func stormReal(r *rng, sidx int, base int) error {
+	k := 3
+	timeout := 150 * time.Millisecond
+	var slowTest int32 = 1
+	var lastTestEnd int64 // unix nanoseconds of the end of the latest endpoint test
+	mgr := &endpoint.Manager{
+		EndpointTester: func(e endpoint.Endpoint) endpoint.Tester {
+			return func(ctx context.Context, d string) error {
+				if atomic.LoadInt32(&slowTest) == 1 {
+					time.Sleep(300 * time.Millisecond)
+				}
+				atomic.StoreInt64(&lastTestEnd, time.Now().UnixNano())
+				return nil
+			}
+		},
+		ErrorThreshold:  3,
+		MinTestInterval: 100 * time.Millisecond,
+	}
+	w, stop, err := newWorldReal(base+60+sidx%20, uint(k), timeout, mgr)
+	if err != nil {
+		return err
+	}
+	defer stop()
+	mkq := func(name string) []byte {
+		return msgSpec{id: r.intn(65536), flags: 0x0100, qs: [][]byte{question(encodeName(name), 1, 1)}}.encode()
+	}
+	// the first query elects the endpoint (slow test), is answered
+	w.up.cur = &behaviour{kind: "up", msg: nil}
+	w.up.mu.Lock()
+	w.up.cur = nil
+	w.up.mu.Unlock()
+	warm := mkq("warm.storm")
+	resp := append([]byte{}, warm...)
+	resp[2] |= 0x80
+	w.up.mu.Lock()
+	w.up.script["warm.storm."] = &behaviour{kind: "up", msg: resp}
+	w.up.cur = &behaviour{kind: "hang"}
+	w.up.mu.Unlock()
+	udpExchange(w.addr, warm, 900*time.Millisecond, time.Millisecond)
+	time.Sleep(30 * time.Millisecond)
+	// silent upstream: waves of queries that time out; each wave starts an opportunistic endpoint test (interval 10 ms)
+	// and its errors arrive while that test is still running
+	// and the history that matters for the manager's bookkeeping: queries already in flight when a later query starts
+	// an endpoint test (the test interval has passed), which then fail while that test is running
+	nq := 0
+	for wave := 0; wave < 3; wave++ {
+		var wg sync.WaitGroup
+		send := func(name string) {
+			nq++
+			q := mkq(name)
+			if !strings.HasPrefix(name, "dead") {
+				// answered at once (a success puts the endpoint's consecutive-error count back to zero)
+				rp := append([]byte{}, q...)
+				rp[2] |= 0x80
+				w.up.mu.Lock()
+				w.up.script[name+"."] = &behaviour{kind: "up", msg: rp}
+				w.up.mu.Unlock()
+			}
+			wg.Add(1)
+			go func() { defer wg.Done(); udpExchange(w.addr, q, 400*time.Millisecond, time.Millisecond) }()
+		}
+		// shortly after a test has ended: these are sent without starting a new one
+		for kicks := 0; kicks < 3 && time.Since(time.Unix(0, atomic.LoadInt64(&lastTestEnd))) > 40*time.Millisecond; kicks++ {
+			send(fmt.Sprintf("kick%d-%d.storm", wave, kicks)) // starts a test: wait for its end (polling)
+			for t := 0; t < 100 && time.Since(time.Unix(0, atomic.LoadInt64(&lastTestEnd))) > 40*time.Millisecond; t++ {
+				time.Sleep(5 * time.Millisecond)
+			}
+		}
+		for j := 0; j < 4; j++ {
+			send(fmt.Sprintf("dead%d-%d.storm", wave, j))
+			time.Sleep(3 * time.Millisecond)
+		}
+		// the interval passes; this one starts the test while the four are still waiting for the silent upstream
+		if d := 112*time.Millisecond - time.Since(time.Unix(0, atomic.LoadInt64(&lastTestEnd))); d > 0 {
+			time.Sleep(d)
+		}
+		send(fmt.Sprintf("trig%d.storm", wave))
+		wg.Wait()
+		time.Sleep(350 * time.Millisecond)
+	}
+	// (the scripted upstream sits behind a UDP socket here: a query that the proxy has given up on is still "inside"
+	// it; what is counted is the number of rendezvous queries that the proxy has let through)
+	maxDuring := 0
+	atomic.StoreInt32(&slowTest, 0) // endpoint tests are instant from here on; the ones still running end within 300 ms
+	time.Sleep(400 * time.Millisecond)
+	w.up.takeCalls()
+	gate := make(chan struct{})
+	var wg2 sync.WaitGroup
+	for j := 0; j < k+2; j++ {
+		name := fmt.Sprintf("b%d.storm.", j)
+		q := mkq(strings.TrimSuffix(name, "."))
+		rp := append([]byte{}, q...)
+		rp[2] |= 0x80
+		w.up.mu.Lock()
+		w.up.script[name] = &behaviour{kind: "up", msg: rp, gate: gate}
+		w.up.mu.Unlock()
+		wg2.Add(1)
+		go func() { defer wg2.Done(); udpExchange(w.addr, q, 500*time.Millisecond, time.Millisecond) }()
+	}
+	time.Sleep(90 * time.Millisecond)
+	barrier := 0
+	w.up.mu.Lock()
+	for _, c := range w.up.calls {
+		if strings.HasPrefix(c.name, "b") {
+			barrier++
+		}
+	}
+	w.up.mu.Unlock()
+	close(gate)
+	wg2.Wait()
+	emit("storm", itoa(sidx), itoa(k), fmt.Sprintf("real_resolver=1,udp_timeout=%d", nq), "=>", itoa(maxDuring), itoa(barrier))
+	return nil
+}
+
 func replyStorm(r *rng, n int, base int) error {
 	for sidx := 0; sidx < n; sidx++ {
+		if sidx%12 == 9 {
+			if err := stormReal(r, sidx, base); err != nil {
+				return err
+			}
+			continue
+		}
 		k := []int{2, 3, 5}[r.intn(3)]
 		timeout := 150 * time.Millisecond
 		// every third storm: the proxy listens on two addresses, which share the capacity
